@@ -174,8 +174,12 @@ pub fn run(c: &Case, o: &mut Outcome) -> Result<(), Failure> {
             let fired = fired.clone();
             let scen = scen.clone();
             let sig = case.signal.clone();
+            let backlog = case.backlog;
             async move {
                 match sig {
+                    // with a backlog the opener task queues the connections and then fires the signal in
+                    // the same poll, so that the accept loop sees both ready at once
+                    Signal::AtMs(_) if backlog > 0 => notify.notified().await,
                     Signal::AtMs(t) => tokio::time::sleep(Duration::from_millis(t as u64)).await,
                     _ => {
                         // event-triggered, with a late fallback so that the scenario always shuts down
@@ -214,6 +218,7 @@ pub fn run(c: &Case, o: &mut Outcome) -> Result<(), Failure> {
         let backlog_task = match (&case.signal, case.backlog) {
             (Signal::AtMs(t), b) if b > 0 => {
                 let net = net.clone();
+                let notify_b = notify.clone();
                 let t = *t as u64;
                 Some(tokio::spawn(async move {
                     tokio::time::sleep(Duration::from_millis(t)).await;
@@ -231,6 +236,7 @@ pub fn run(c: &Case, o: &mut Outcome) -> Result<(), Failure> {
                             held.push((t, h));
                         }
                     }
+                    notify_b.notify_one();
                     held
                 }))
             }
